@@ -207,6 +207,53 @@ PROPS["C15"] = dict(
     assumptions=ASSUME_COMMON,
 )
 
+PROPS["C14"] = dict(
+    units=[dict(name="c14", src="props/c14.cpp", deps=["lib/pwc.hpp", "lib/exactsum.hpp"])],
+    rule="case = numeric type x N (1..10^5 quick, ..10^7 thorough) x one of 10 value patterns (one large then many "
+         "eps/4, alternating with cancellation, geometric decay over 40 binades, random magnitudes over 20 decades with "
+         "random signs, ascending, descending, equal 0.1, zeros with rare large, ...) optionally negated, scaled by "
+         "10^-10..10^10 x integrator (PLAIN weight 1 / VEGAS uniform or power-law grid / multi-channel PWC) x "
+         "distribution (none / 1-d / 2-d, all values into one bin or round robin); non-trivial: N >= 1000 AND the naive "
+         "left-to-right sum of the same values (computed by the harness) lies outside the bound, i.e. the case can tell "
+         "compensated from naive summation; distinct = distinct description",
+    quick=dict(shards=8, cases=250),
+    thorough=dict(shards=16, cases=1500),
+    floors={"separates-naive-from-compensated": 0.08, "dist-1d": 0.15, "dist-2d": 0.15, "negated": 0.15},
+    level_text="generated adversarial sequences through real iterations; the reported sum (and every distribution bin "
+               "sum after the documented 1/area scaling) is compared with the exact sum of the very values the library "
+               "adds, computed with non-overlapping expansions: |sum - exact| <= (4 eps + 4 N eps^2) sum|v| (Kahan's "
+               "bound with a factor 2 of slack); exploration over generated inputs",
+    level_note="trusted: the expansion accumulator (Shewchuk / fsum) in lib/exactsum.hpp; v = f*w is recomputed in the "
+               "integrand by the same single multiplication; sum_of_squares is not compensated and not claimed",
+    technique="rapidcheck over choice tapes; exact-sum oracle with the Kahan bound, naive-sum discriminator for non-triviality",
+    assumptions=ASSUME_COMMON,
+)
+
+PROPS["C02"] = dict(
+    units=[dict(name="c02", src="props/c02.cpp", deps=["lib/pwc.hpp", "lib/exactsum.hpp"])],
+    rule="case = numeric type x integrator (PLAIN 1-4 dims / VEGAS 1-4 dims, 2-16 bins, uniform or user grid, adapting / "
+         "multi-channel PWC 1-5 channels with generated weights incl. zeros) x 1..4 iterations with N from {0..3, odd, "
+         "0..2000, 10..310} x one of 9 dictated value patterns (all zero, rare non-zero, alternating sign, random sign and "
+         "magnitude, zero with probability 0.6, position dependent, zero region, a few NaN/+-inf, constant) x scale "
+         "10^-4..10^4, optionally a distribution; every iteration of the run is checked; non-trivial: zero and non-zero "
+         "evaluations, some N >= 2 and (for adaptive integrators) a non-uniform grid / unequal weights; distinct = "
+         "distinct description",
+    quick=dict(shards=8, cases=2500),
+    thorough=dict(shards=16, cases=120000),
+    floors={"mixed-zero-nonzero": 0.25, "some-non-finite": 0.05, "N<=3": 0.2, "VEGAS": 0.2, "MULTI": 0.2},
+    level_text="independent recomputation from the call log of an instrumented integrand (f per call; weight, VEGAS bins, "
+               "channel and coordinates only for non-zero f): number of evaluations = N = calls(); non_zero_calls and "
+               "finite_calls exact; sum within the Kahan bound of the exact sum of f*w; sum_of_squares and the VEGAS "
+               "per-bin / multi-channel per-channel adjustment data within (n+4..6) eps of a compensated long-double sum "
+               "of non-negative terms; value / variance / error equal the documented formulas applied to the reported "
+               "sums; the multi-channel weight equals jacobian / sum alpha_j p_j; exploration over generated inputs",
+    level_note="trusted: the call log and the long double / exact-expansion recomputation; the densities are recomputed "
+               "from the logged coordinates with the family's own function (the map is harness code); slots of disabled "
+               "channels are documented as ignored and not judged",
+    technique="rapidcheck over choice tapes; logging integrand + independent recomputation oracle",
+    assumptions=ASSUME_COMMON,
+)
+
 NOT_APPLICABLE = {}
 
 ENGINES = [
